@@ -42,7 +42,7 @@ SUMMARY.update({
  "C02-c": ("C02", "core.rs commit: queue changed from VecDeque to Vec with push only (ancestors delivered newest-first)", "one commit whose walk collects >= 2 uncommitted ancestors"),
  "C05-c": ("C05", "core.rs process_block: 'late block fast path' commits b1 when block.round <= high_qc.round and b1.round + 1 == block.round (no certificate for block)", "a view change orphaning a branch, then a late / replayed uncertified proposal on the orphaned branch"),
  "C06-b": ("C06", "proposer.rs make_block: ack-wait loop breaks on `>` instead of `>=` quorum", "exactly f authorities crashed: the proposer waits for an ack that never comes"),
- "C07-c": ("C07", "consensus synchronizer timer arm: requests.retain(|d| pending.contains(d)) mixes the two key spaces and drops the outstanding request", "first sync target unresponsive"),
+ "C07-c": ("C07", "consensus synchronizer timer arm: requests.retain(d -> pending.contains(d)) mixes the two key spaces and drops the outstanding request", "first sync target unresponsive"),
  "C08-c": ("C08", "consensus/src/mempool.rs PayloadWaiter: try_join_all replaced by FuturesUnordered::try_next (resumes on the FIRST arriving batch)", "a proposal with >= 2 missing batches that do not arrive together"),
  "C09-c": ("C09", "leader.rs: zero-stake members filtered out before the round robin", "a committee with a zero-stake member"),
  "C10-c": ("C10", "core.rs: stale-round guard hoisted out of advance_round; handle_proposal's advance_round(tc.round) for an embedded old TC moves the round back", "a late / sync-fetched proposal carrying a TC older than the current round"),
@@ -52,7 +52,7 @@ SUMMARY.update({
  "C14-c": ("C14", "reliable_sender.rs run(): buffer.retain replaced by swap_remove_back in the back-off loop (reorders live messages)", "peer unreachable, a cancelled message queued before live ones, one more send during the same back-off"),
  "C15-a": ("C15", "crypto decode_base64 via decode_config_slice into a fixed array: panics on over-long keys", "a key string decoding to more than 32 / 64 bytes"),
  "C15-b": ("C15", "consensus.rs receiver handler: SyncRequest from a non-member falls through to the core, which panics on 'Unexpected protocol message'", "a SyncRequest whose origin is not in the committee"),
- "C16-c": ("C16", "store NotifyRead arm: waiters.retain(|s| s.is_closed()) (inverted) drops live waiters", ">= 2 notify-reads pending on one key"),
+ "C16-c": ("C16", "store NotifyRead arm: waiters.retain(s -> s.is_closed()) (inverted) drops live waiters", ">= 2 notify-reads pending on one key"),
  "C18-b": ("C18", "node/src/config.rs Export::read strips `//` comments, but base64 contains `/`", "a key whose base64 text contains `//` (1-2 % of keys)"),
  "C19-c": ("C19", "aggregator.rs QCMaker: `weight == quorum` instead of `>=`, reset dropped", "unequal stakes where the accumulated weight jumps over the threshold"),
  "C20-b": ("C20", "messages.rs Vote and QC digests drop the round", "a vote / QC relabelled with another round"),
